@@ -95,7 +95,9 @@ def exact(a, b):
     return a.shape == b.shape and a.dtype != object and b.dtype != object and bool(np.array_equal(a, b, equal_nan=True))
 
 
-def close(a, b, rtol=1e-9):
+def close(a, b, rtol=1e-9, mag=0.0):
+    """`mag`: the largest magnitude the values passed through on the way (x shifted to 19 and back to 0 keeps the
+    rounding it got at 19)."""
     try:
         a, b = np.asarray(a, dtype=float), np.asarray(b, dtype=float)
     except (TypeError, ValueError):
@@ -110,7 +112,7 @@ def close(a, b, rtol=1e-9):
     # compared to a fraction of 60 s), with a floor of a few hundred ulp of the largest magnitude for the rounding
     # that x + shift / x * scale legitimately incur there
     spread = float(np.max(b) - np.min(b))
-    mag = float(np.max(np.abs(b)))
+    mag = max(float(np.max(np.abs(b))), float(mag))
     atol = max(rtol * spread, 512 * np.finfo(float).eps * mag, 1e-300)
     return bool(np.all(np.abs(a - b) <= atol + rtol * 0.0))
 
@@ -148,6 +150,13 @@ def _exact_any(a, b):
         return exact(a, b)
     except Exception:
         return False
+
+
+def _fitpack_gave_up(w):
+    msg = str(getattr(w, "message", ""))
+    return issubclass(getattr(w, "category", Warning), RuntimeWarning) and (
+        "maximal number of iterations" in msg or "Probable cause" in msg or "s too small" in msg
+        or "theoretically impossible" in msg or "required storage space exceeds" in msg)
 
 
 def fmt_op(op, a):
@@ -662,12 +671,17 @@ class Machine:
             np.random.seed(a["seed"] % (2 ** 32))
         mark = len(self.rng.calls)
         try:
-            with warnings.catch_warnings():
-                warnings.simplefilter("ignore")
+            with warnings.catch_warnings(record=True) as caught:
+                warnings.simplefilter("always")
                 ret = call(self.wv)
         except Exception as e:
             self.on_valid_raised(op, a, e)
             return
+        if any(_fitpack_gave_up(w) for w in caught):
+            # FITPACK reported that it did not converge ("s too small", iteration limit): as for the smoothing
+            # property itself, such a run is discarded, not judged - the spline it returns may be anything
+            self.count("discarded-fitpack-non-convergence")
+            raise Abort("FITPACK non-convergence")
         # model
         if op in DOMAIN_OPS:
             self.model.domain(op, a, *cuts)
@@ -840,11 +854,22 @@ class Machine:
             xs = np.asarray(xs, dtype=float)
             return float(np.finfo(float).eps * np.max(np.abs(xs)) / np.min(np.diff(xs))) if len(xs) > 1 else 0.0
 
+        magx = magy = 0.0
+
+        def track(wv):
+            nonlocal magx, magy
+            tx, ty = wv.get()
+            magx = max(magx, float(np.max(np.abs(np.asarray(tx, dtype=float)))))
+            magy = max(magy, float(np.max(np.abs(np.asarray(ty, dtype=float)))))
+
+        track(self.wv)
         for o in ops:
             self.apply(*o)
+            track(self.wv)
         self.apply(*g)
         cond = conditioning(self.cur()[0])          # where the pipeline of order A was computed
         self.apply(*m)
+        track(self.wv)
         # B: pipeline first, then maps
         self.history.append("|| other order:")
         try:
@@ -853,14 +878,16 @@ class Machine:
                 self.build_call(*g, primary=False)(other)
                 cond = max(cond, conditioning(other.get()[0]))      # ... and of order B (before the maps move it)
                 self.build_call(*m, primary=False)(other)
+                track(other)
                 for o in ops:
                     self.build_call(*o, primary=False)(other)
+                    track(other)
         except Exception as e:
             self.fail("pipeline-raised", f"op=recreate_from_average:{s}", f"recreate+match then maps raised {type(e).__name__}: {e}")
         ax, ay = self.cur()
         bx, by = (np.asarray(v, dtype=float) for v in other.get())
         cond = max([cond] + [conditioning(v) for v in (ax, bx)])
-        if not (close(ax, bx, 1e-7) and close(ay, by, 1e-7 + 64 * cond)):
+        if not (close(ax, bx, 1e-7, magx) and close(ay, by, 1e-7 + 64 * cond, magy)):
             bad = int(np.argmax(np.abs(ay - by))) if ay.shape == by.shape else -1
             self.fail("R5/maps-do-not-commute-with-pipeline", f"op=recreate_from_average:{s}",
                       f"{[fmt_op(*o) for o in ops]} before recreate({s})+match({target}) gives y {brief(ay)}, after it gives "
